@@ -104,7 +104,7 @@ def make_machine(which, base_dir):
                          row_group_size=row_group_size)
 
             @precondition(lambda self: any(t["final"] for t in self.world.tables.values()))
-            @rule(data=st.data(), via=st.sampled_from(["direct", "direct", "frame", "mapped", "joined", "computed"]),
+            @rule(data=st.data(), via=st.sampled_from(["direct", "direct", "frame", "mapped_frame", "mapped", "joined", "computed"]),
                   chunk_mode=st.sampled_from(["one", "small", "n-1", "n", "n+1", "any"]), chunk_any=st.integers(1, 30),
                   col_pick=st.one_of(st.none(), st.lists(st.integers(0, 7), min_size=1, max_size=5)),
                   rename=st.integers(0, 15))
